@@ -114,9 +114,10 @@ def gen_cases(tier, seed):
     return cases
 
 
-MULTI = [("scd", "nooa"), ("scd", "nb"), ("authn", "session-nooa"), ("assertion", "cond-nooa"), ("assertion", "cond-nb")]
+MULTI = [("scd", "nooa"), ("scd", "nb"), ("authn", "session-nooa"), ("assertion", "cond-nooa"), ("assertion", "cond-nb"),
+         ("conditions", "cond-nooa"), ("conditions", "cond-nb"), ("scdata", "nooa")]
 # what the sibling occurrences look like: a comfortable copy of the same element, or (for confirmations) another method without data
-MULTI_OTHER = {"scd": ["bearer-ok", "holder-of-key", "sender-vouches-no-data"], "authn": ["ok"], "assertion": ["ok"]}
+MULTI_OTHER = {"scd": ["bearer-ok", "holder-of-key", "sender-vouches-no-data"], "authn": ["ok"], "assertion": ["ok"], "conditions": ["ok"], "scdata": ["ok"]}
 
 
 def setup_worker(ctx):
@@ -168,7 +169,7 @@ def run_multi(case, ctx):
     d = d.set_attr(d.find(xk.SAML, "SubjectConfirmationData")[0], "NotOnOrAfter", clock.iso(T0 + W + far))
     d = d.set_attr(d.find(xk.SAML, "AuthnStatement")[0], "SessionNotOnOrAfter", clock.iso(T0 + W + far + 777))
     elem, bound, pos, other = case["elem"], case["bound"], case["pos"], case["other"]
-    target = {"scd": "SubjectConfirmation", "authn": "AuthnStatement", "assertion": "Assertion"}[elem]
+    target = {"scd": "SubjectConfirmation", "authn": "AuthnStatement", "assertion": "Assertion", "conditions": "Conditions", "scdata": "SubjectConfirmationData"}[elem]
     node = d.find(xk.SAML, target)[0]
     good = d.standalone(node).decode("utf-8")
 
@@ -184,6 +185,10 @@ def run_multi(case, ctx):
         bad = bad.set_attr(n, "NotOnOrAfter" if bound == "nooa" else "NotBefore", clock.iso(T0 - W - off) if bound == "nooa" else clock.iso(T0 + W + off))
     elif elem == "authn":
         bad = bad.set_attr(bad.root, "SessionNotOnOrAfter", clock.iso(T0 - W - off))
+    elif elem == "conditions":
+        bad = bad.set_attr(bad.root, "NotOnOrAfter" if bound == "cond-nooa" else "NotBefore", clock.iso(T0 - W - off) if bound == "cond-nooa" else clock.iso(T0 + W + off))
+    elif elem == "scdata":
+        bad = bad.set_attr(bad.root, "NotOnOrAfter", clock.iso(T0 - W - off))
     else:
         n = bad.find(xk.SAML, "Conditions")[0]
         bad = bad.set_attr(n, "NotOnOrAfter" if bound == "cond-nooa" else "NotBefore", clock.iso(T0 - W - off) if bound == "cond-nooa" else clock.iso(T0 + W + off))
